@@ -91,11 +91,11 @@ Section Dec.
     | Some l => mml st <= l /\ l < 2147483648 /\ alen = l
     | None => amp <= ref_len st /\ alen = ref_len st - amp
     end ->
-    amp + alen <= lenN (refp st) ->
+    amp + alen <= lenN (refp st) -> refp_len st = lenN (refp st) ->
     decode_go st (S f) (b ++ r) rout pp =
     decode_go st f r (rev_append (firstnN alen (skipnN amp (refp st))) rout) (amp + alen).
   Proof.
-    intros Ha Hp Hm Hb alen Hl Hin.
+    intros Ha Hp Hm Hb alen Hl Hin Hrpl.
     destruct (ser_match_ok amp len pp Ha Hp) as (b' & Hb' & Eb). { destruct len; tauto. }
     assert (Eb2 : b = b') by congruence. rewrite <- Eb2 in Eb. clear Eb2 Hb' b'.
     destruct (append_int_head (Z.of_N amp - Z.of_N pp)) as (c & a & Ec & Hc).
@@ -126,10 +126,10 @@ Section Dec.
     cbn [decode_go]. rewrite C1, C2, Hdm.
     destruct len as [l|].
     - destruct Hl as (H1 & H2 & ->). destruct (l =? to_end_len) eqn:E; [consts; lia|].
-      destruct (amp + l <=? lenN (refp st)) eqn:E2; [|lia]. reflexivity.
+      rewrite Hrpl. destruct (amp + l <=? lenN (refp st)) eqn:E2; [|lia]. reflexivity.
     - destruct Hl as (H1 & ->). replace (to_end_len =? to_end_len) with true by reflexivity.
       unfold sub_u64. destruct (amp <=? ref_len st) eqn:E; [|lia].
-      destruct (amp + (ref_len st - amp) <=? lenN (refp st)) eqn:E2; [|lia]. reflexivity.
+      rewrite Hrpl. destruct (amp + (ref_len st - amp) <=? lenN (refp st)) eqn:E2; [|lia]. reflexivity.
   Qed.
 
   Lemma ser_match_nonempty amp len pp b : ser_match st amp len pp = Ok b -> b <> [].
@@ -198,10 +198,10 @@ Section Dec.
     | Some l => mml st <= l /\ l < 2147483648 /\ alen = l
     | None => amp <= ref_len st /\ alen = ref_len st - amp
     end ->
-    amp + alen <= lenN (refp st) ->
+    amp + alen <= lenN (refp st) -> refp_len st = lenN (refp st) ->
     DecTo (enc ++ b) (out ++ firstnN alen (skipnN amp (refp st))) (amp + alen).
   Proof.
-    intros H Ha Hp Hm Hb Hl Hin. eapply DecTo_step; eauto.
+    intros H Ha Hp Hm Hb Hl Hin Hrpl. eapply DecTo_step; eauto.
     { eapply ser_match_nonempty; eauto. }
     intros. rewrite (step_match amp len pp b) with (alen := alen) by auto.
     f_equal. rewrite rev_append_rev, rev_app_distr. reflexivity.
